@@ -19,7 +19,7 @@ pub const DEF: PropDef = PropDef {
 
 fn jobs(plan: &Plan) -> Vec<Job> {
     let t = plan.tier;
-    let mut v = entry_jobs(plan, "C20", "forms", t.pick(80, 700, 1), |d| d.forms.len() > 1);
+    let mut v = entry_jobs(plan, "C20", "forms", t.pick(80, 2500, 1), |d| d.forms.len() > 1);
     v.extend(stack_jobs(plan, "C20", "stack-forms", t.pick(10, 80, 0), |d| d.forms.len() > 1));
     v
 }
